@@ -20,7 +20,7 @@ def val_of_dim(d):
         v.dim = UNK
         return v
     if isinstance(d, str):
-        v = VNum("int", T.sym(d), pos=True)
+        v = VNum("int", T.sym(d), pos=not d.startswith("nnz"), nonneg=True)
         v.dim = d
         return v
     # composite
@@ -192,7 +192,13 @@ def binop(it, op, a, b, node):
         u.term = term_binop(op, ta, tb) if ta is not None and tb is not None else None
         u.origin = getattr(a, "origin", None) or getattr(b, "origin", None)
         return u
-    if isinstance(a, VList) and op == "Mult":
+    if isinstance(b, (VList, VTuple)) and isinstance(a, VConst) and op == "Mult":
+        a, b = b, a
+    if isinstance(a, (VList, VTuple)) and op == "Mult":
+        items = a.obj.items if isinstance(a, VList) else a.items
+        if items is not None and isinstance(b, VConst) and isinstance(b.value, int) and not isinstance(b.value, bool) and b.value <= 64:
+            rep = list(items) * b.value
+            return it.new_list(rep) if isinstance(a, VList) else VTuple(rep)
         return it.new_list(None)
     raise Unsupported("binop %s on %r, %r" % (op, a, b), node, it.site(node))
 
